@@ -10,17 +10,10 @@ from sa.fold import Folder, Regex
 from sa.regex import Compiled
 from sa.selftest import Edit, Variant
 
-EXPLANATION = (
-    "Loop and recursion inventory of the whole package: every `while` loop, every `for` loop over a collection that its body grows, and every "
-    "cycle of the call graph is assigned a termination argument from a closed list and the argument is checked structurally - worklist over "
-    "tree nodes (each iteration pops, pushes are children of the popped node), parent walk, strictly advancing index / strictly shrinking "
-    "remainder (with non-nullable token regexes), structural descent into children, flag-bounded self call on a clone, and reference "
-    "following, which is accepted only under a visited set or a dominating cycle pre-check (recursive reference walks end in RecursionError, "
-    "an exception, and are recorded as notes). Plus: XML parser constructed exactly once with resolve_entities=False, no other XML entry, "
-    "no file/network/process API outside SVG.parse and the CLI, and the final gate raises on every violation list."
-)
-ASSUMPTIONS = ["running time proportional to the expanded document and memory use are not decided",
-               "Python's recursion limit turns unbounded recursion into RecursionError (an exception, allowed by the property)"]
+from sa.texts import T as _T
+
+EXPLANATION = _T["C17"]["explanation"] + " Not decided: " + _T["C17"]["not_decided"] + "."
+ASSUMPTIONS = _T["C17"]["assumptions"]
 P = "C17"
 REF_CALLS = ("xpath", "xpath_one", "resolve_url", "el_by_id.get", "getElementById")
 FORBIDDEN_IO = {"urlopen", "urlretrieve", "system", "popen", "Popen", "check_output", "check_call", "socket", "eval", "exec", "compile",
